@@ -411,7 +411,7 @@ def main(argv):
                      'gen_c09.py', 'gen_c10.py', 'gen_dirs.py'],
         modules=['Alpaqa.Props.C01', 'Alpaqa.Props.C01_Alm', 'Alpaqa.Props.C01_C04'], driver=None,
         extra_sources=['Alpaqa/Gen/C15.lean', 'Alpaqa/Gen/C06.lean', 'Alpaqa/Gen/C01.lean', 'Alpaqa/Proofs/VecLemmas.lean',
-                       'Alpaqa/Proofs/C01Panoc.lean', 'Alpaqa/Proofs/PanocFuel.lean', 'Alpaqa/Proofs/PanocSized.lean', 'Alpaqa/Proofs/C07.lean', 'Alpaqa/Proofs/C07Run.lean',
+                       'Alpaqa/Proofs/C01Panoc.lean', 'Alpaqa/Proofs/C01PanocOn.lean', 'Alpaqa/Proofs/PanocInvOn.lean', 'Alpaqa/Proofs/PanocFuel.lean', 'Alpaqa/Proofs/PanocSized.lean', 'Alpaqa/Proofs/C07.lean', 'Alpaqa/Proofs/C07Run.lean',
                        'Alpaqa/Proofs/PanocInv.lean', 'Alpaqa/Model/Panoc.lean', 'Alpaqa/Model/C07.lean', 'Alpaqa/Props/C04.lean',
                        'Alpaqa/Props/DirectionsLoop.lean'],
         harness_name='almrun', harness_sources=[], harness_builder=lambda: (exe, log),
